@@ -196,6 +196,11 @@ theorem clientDo_shape :
        "NewRedirectingClient: if(param1){return composite:redirectClient(&composite:http.Client)} ; return composite:noRedirectClient(param0)",
        "panicOnHTTP1Client.Do: 1 inner Do calls; first: local,local:=recv.Client.Do(param0)"] := rfl
 
+/-- http/json: entities come from a json.Decoder over the file, line by line and as an array alike (an entry may span
+several lines; the layout of the file is invisible) -/
+theorem jsonDecode_shape :
+    Gen.HttpWire.jsonDecodeSites = ["Scan: recv.decoder.Decode(&local)", "readArray: recv.decoder.Decode(&local)"] := rfl
+
 /-- connect gun: tunnels are opened at `TargetResolved` (defaulting to `Target`), by a TCP dial to that address followed by
 `CONNECT <the address the transport asks for>` — the model's `connectTunnel` -/
 theorem connect_shape :
